@@ -114,7 +114,7 @@ def r1_frozen(rep, ctx):
                               "memo slot %s is computed from %s, not only from frozen fields" % (x.attr, show(t, 160)), node=node, fn=fn)
                 else:
                     rep.bad("C07.R1", key, "slot %s of a Quantity is written after construction, in %s" % (x.attr, fn.name), node=node, fn=fn)
-    rep.floor("C07.R1", "slot stores", n, 15)
+    rep.floor("C07.R1", "slot stores", n, 11)
     rep.count("slots", len(slots))
 
 
@@ -179,7 +179,7 @@ def r3_ownership(rep, ctx):
     # every sink of the library is classified; record the totals
     total = sum(1 for _ in a.sinks())
     rep.count("mutation sinks examined", total)
-    rep.floor("C07.R3", "call-site obligations of map-mutating helpers", n_via, 4)
+    rep.floor("C07.R3", "call-site obligations of map-mutating helpers", n_via, 2)
     # the references handed out must be followed: the getter returns the field itself, so its callers are the ones checked above
     g = m.func("Quantity.GetCategoryToUnitAndExps")
     ret = a.sum[g.qual].ret
@@ -218,7 +218,7 @@ def r4_capture(rep, ctx):
             rep.check(not shared, "C07.R4", key, "the map captured by the new Quantity is %s / %s (fresh, immutable or the caller's argument)" % (prov.fmt_atoms(v.lv[0]), prov.fmt_atoms(v.lv[1])),
                       "a Quantity is built around containers that stay reachable from %s: later writes through that path change the quantity" % prov.fmt_atoms(set(shared)),
                       node=cs["node"], fn=fn)
-    rep.floor("C07.R4", "capture sites", n, 3)
+    rep.floor("C07.R4", "capture sites", n, 2)
     # public copying constructors must not keep their argument (depth 0 and 1)
     for qual in BOUNDARY:
         fn = m.func(qual)
@@ -251,7 +251,7 @@ def r5_interning(rep, ctx):
         return any(x[0] == "attr" and x[2] == "quantities_cache" for x in alternatives(t))
 
     ctor_calls = [n for n in own_nodes(fn.node) if isinstance(n, ast.Call) and isinstance(n.func, ast.Name) and n.func.id == "Quantity"]
-    rep.floor("C07.R5", "Quantity constructions in ObtainQuantity", len(ctor_calls), 3)
+    rep.floor("C07.R5", "Quantity constructions in ObtainQuantity", len(ctor_calls), 2)
     stored_names = {}
     for c in ctor_calls:
         st = c
@@ -313,7 +313,7 @@ def r5_interning(rep, ctx):
                 rep.check(ok, "C07.R5", "ObtainQuantity:store-key:%s" % norm(ast.unparse(st))[:80], "the entry is stored under a key made of the request's own category, unit and caption",
                           "`%s`: %s, so the entry also answers requests that name no category although their default category may differ from this object's: Scalar(v, u) and Scalar(v, u, default category of u) stop being equal after such a store"
                           % (norm(ast.unparse(st))[:100], why), node=st, fn=fn)
-    rep.floor("C07.R5", "stores into the intern table", n_stores, 5)
+    rep.floor("C07.R5", "stores into the intern table", n_stores, 2)
     # returns: cache hit or a name assigned by such a statement in that arm
     for r in cfg.returns():
         st = cfg.ast[r]
@@ -449,7 +449,7 @@ def r6_eq_hash(rep, ctx):
                       "eq ignores %s: quantities that differ in it compare equal" % sorted(need - er), fn=e)
             rep.check(need <= hr, "C07.R6", "Quantity:hash-identity", "hash covers the composing map and the caption",
                       "hash ignores %s" % sorted(need - hr), fn=h)
-    rep.floor("C07.R6", "classes defining both __eq__ and __hash__", n, 2)
+    rep.floor("C07.R6", "classes defining both __eq__ and __hash__", n, 1)
 
 
 def _must_return_self(m, fn, arm_none_param=None):
